@@ -1,5 +1,6 @@
 import Zstd.Proofs.EncReal
 import Zstd.Proofs.SeqFrame
+import Zstd.Proofs.LitCoderFrame
 /-
 C16 — compression is correct for every well-behaved user-supplied matcher.
 
@@ -17,8 +18,10 @@ History of exclusions (all were findings; none is part of the statements any mor
        the header now declares max(window_size(), 128 KiB), so `space_le` is just "≤ 128 KiB"
 Remaining explicit side condition (observation, not reachable without > 4 GiB of input):
   (u32) offsets ≥ 2^32 − 3 are truncated by `(offset + 3) as u32`
-The entropy coders are parameters here (`Coders`); "the coders do not fault" is a hypothesis of the
-frame-level `_partial` theorem and `faults_only_in_entropy_coders` says nothing else can fault.
+The entropy coders are parameters in the first part (`Coders`); "the coders do not fault" is a hypothesis of
+the frame-level `_partial` theorem and `faults_only_in_entropy_coders` says nothing else can fault.  The
+second part (from `lit_coder_correct` on) instantiates the REAL coders and leaves no hypothesis about
+them: `compress_with_matcher_correct` is the property at full strength (for byte strings).
 -/
 namespace Zstd.Props.C16
 open Zstd Zstd.Model Zstd.Model.Enc Zstd.Proofs.Enc
@@ -95,8 +98,9 @@ theorem compress_with_matcher_uncompressed {H : Type} (hash : Bool) (enc : Block
 /-- C16 at full strength, a CLOSED statement: the real block encoder `compressBlockReal`
 (`compressBlock` over `realCoders`, the merged C12/C13 models; `Model/EncCoders.lean`), whose
 executable model is compared byte for byte with the code on every run.  No exclusion is left except the `u32`
-offset condition: F4, F10 and F13 are repaired.  NOT proved here: needs `BlockEncCorrect` for
-`compressBlock cd` and totality of `cd` (C12 / C13 theorems). -/
+offset condition: F4, F10 and F13 are repaired.  AS WORDED IT IS FALSE (`compress_with_matcher_correct_full_false`):
+`data : List Byte` ranges over all lists of `Nat`, and a "byte" `≥ 256` among more than 1024 literals has no
+Huffman code.  The theorem for byte strings is `compress_with_matcher_correct` (with `w + 3 < 2^32`). -/
 def compress_with_matcher_correct_full : Prop :=
   ∀ (hash : Bool) (c : Compressor Huf.EncTable), c.level = .fastest →
     ∀ (w : Nat) (script : Nat → MBlock) (data : List Byte) (frags : List Nat),
@@ -206,7 +210,7 @@ theorem huff_state_tracks_decoder {H : Type} (R : H → Spec.Huffman.Table → P
     · cases hlit
     · rename_i lb t hc
       simp only [Except.ok.injEq, Prod.mk.injEq] at hlit
-      obtain ⟨d', hdec, htr'⟩ := hcd _ _ _ _ e.huf rest htr hc
+      obtain ⟨d', hdec, htr'⟩ := hcd _ _ _ _ e.huf rest hlen htr hc
       refine ⟨lb.length, d', by rw [hbytes, ← hlit.1]; exact hdec, ?_⟩
       rw [← hlit.2]
       intro t' ht'
@@ -214,7 +218,7 @@ theorem huff_state_tracks_decoder {H : Type} (R : H → Spec.Huffman.Table → P
       exact htr' t' (by rw [← ht']; rfl)
     · rename_i lb hc
       simp only [Except.ok.injEq, Prod.mk.injEq] at hlit
-      obtain ⟨d', hdec, htr'⟩ := hcd _ _ _ _ e.huf rest htr hc
+      obtain ⟨d', hdec, htr'⟩ := hcd _ _ _ _ e.huf rest hlen htr hc
       refine ⟨lb.length, d', by rw [hbytes, ← hlit.1]; exact hdec, ?_⟩
       rw [← hlit.2]
       intro t' ht'
@@ -371,7 +375,10 @@ theorem block_encoder_contract_of_literal_coder {H : Type} (R : H → Spec.Huffm
     BlockEncCorrect R w window (compressBlock cd) :=
   Proofs.SeqBlock.blockEncCorrect_of_litCoder R cd hcd hseq w window hww hw32
 
-/-- **C16 reduced to the literal coder.**  For every well-behaved matcher with `window_size() + 3 < 2^32`
+/-- (SUPERSEDED by `compress_with_matcher_correct`; kept for reference.  Its hypothesis `hlit` — totality for
+every literal list and every remembered table — is unsatisfiable, `lit_coder_total_unrestricted_false`, so this
+statement is vacuous; totality holds on byte literals from reachable encoder states, `lit_coder_total`.)
+**C16 reduced to the literal coder.**  For every well-behaved matcher with `window_size() + 3 < 2^32`
 and the REAL block encoder: if the real literal coder (1) satisfies its contract and (2) does not panic
 on more than 1024 and at most 128 Ki literals (both are C13 obligations), then compression at
 `Fastest` completes and the strict Spec decodes the frame to exactly the input.  Unlike
@@ -385,6 +392,309 @@ theorem compress_with_matcher_correct_of_literal_coder (R : Huf.EncTable → Spe
     ∃ frame c', compressFrame hash compressBlockReal c w script data frags = .ok (frame, c') ∧
       Spec.decodeFrame frame = some (specResult hash w data frame) :=
   Proofs.SeqFrame.compress_with_matcher_correct_of_litCoder R realCoders hcd rfl hlit hash c hc w script data frags hm hw32
+
+/-! ## the literal coder's obligations discharged (C13 → strict Spec): C16 without coder hypotheses
+
+`Proofs/LitCoder*.lean`: what the real `compress_literals` writes is decoded by the STRICT
+specification — RLE literals, raw fallback, Compressed (new table; weights in direct or FSE-compressed
+form — `Spec.Huffman.readWeights`, `tableOfWeights`), Treeless (table of the previous block), one
+stream or four streams with the jump table (`Spec.Huffman.decodeStream`: exact consumption, no zero
+last byte), the three size formats with Regenerated_Size / Compressed_Size.
+
+What had to change in the statements (all three are artefacts of the model's types, none a defect of
+the code; the old wordings are refuted below):
+  (a) `LitCoderCorrect` now carries `lits.length < 2^20` (`rle_literals` writes `len as u32` into a
+      20-bit field) — `lit_coder_contract_unbounded_false`;
+  (b) the totality hypothesis `hlit` of `compress_with_matcher_correct_of_literal_coder` (every
+      literal list, every remembered table) is unsatisfiable: a literal `≥ 256` (`Byte` is `Nat`) has no
+      code, and a remembered table that is not a prefix code faults in the bit writer —
+      `lit_coder_total_unrestricted_false`; totality holds for byte strings from a REACHABLE encoder
+      state (remembered table canonical), and is proved along the block loop with that invariant;
+  (c) hence the frame-level statements need `∀ b ∈ data, b < 256` — `compress_with_matcher_correct_full_false`.
+The last obligation, C13's `fse_weights_lt_128` (`write_table` does not hit `assert!(encoded_len < 128)`), is a
+theorem of C13 by now (`C13.fse_weights_lt_128_full_holds`: size bound from the normalised distribution +
+kernel evaluation over the finite set of compressor weight vectors); `fse_weights_lt_128` below is its
+instance for the tables `build_from_data` returns.  `compress_with_matcher_correct_or_assert` is the
+statement that does not depend on that evaluation. -/
+
+open Zstd.Proofs.LitCoder
+
+/-- the relation `Tracks` is instantiated with: the Spec's table in force decodes the code of the table the
+encoder remembers (every cell whose index starts with the code of `s` holds `s` and the code length) -/
+abbrev TableRel := Zstd.Proofs.LitCoder.TableRel
+
+/-- **the contract of the real literal coder (`compress_literals`), all branches, against the strict Spec** -/
+theorem lit_coder_correct : LitCoderCorrect TableRel realCoders := lit_coder_contract
+
+/-- … and therefore the block-encoder contract of the REAL `compress_block`, no hypothesis left -/
+theorem block_encoder_contract_real (w window : Nat) (hww : w ≤ window) (hw32 : w + 3 < 2 ^ 32) :
+    BlockEncCorrect TableRel w window compressBlockReal :=
+  block_encoder_contract_of_literal_coder TableRel realCoders lit_coder_correct rfl w window hww hw32
+
+/-! ### the Huffman layer against the strict Spec (what C13 proves against the model's decoder, restated
+for `Spec.Huffman.*`; these are the three facts `lit_coder_correct` is assembled from) -/
+
+/-- **one Huffman stream**: what `encode_stream` writes for `data` with the encoder table `t` is accepted by the
+strict `Spec.Huffman.decodeStream` (non-zero last byte, every code inside the stream, stream consumed
+exactly) and regenerates `data`, for every Spec table that decodes the code of `t` -/
+theorem huffman_stream_spec {T : Spec.Huffman.Table} {t : Huf.EncTable} (sd : SpecDecodes T t)
+    (data stream : List Nat) (henc : Huf.encodeStream t data = .ok stream) :
+    Spec.Huffman.decodeStream T stream data.length = some data :=
+  decodeStream_encodeStream sd data stream henc
+
+/-- **the tree description**: whatever `write_table` writes for a canonical table (every table
+`build_from_data` returns for bytes: `buildFromData_canon`) — direct form or FSE-compressed — the strict
+`Spec.Huffman.readTable` reads back, followed by anything, consuming exactly the description; the table it
+builds (last weight inferred) has `Max_Number_of_Bits = m` and decodes the encoder's code -/
+theorem huffman_description_spec {t : Huf.EncTable} {wd : List Nat} {m : Nat} (c : Zstd.Proofs.Huf.CanonTable t wd m)
+    {desc : List Nat} (h : Huf.writeTable Enc.fseWeights t = .ok desc) (tail : List Nat) :
+    ∃ T, Spec.Huffman.readTable (desc ++ tail) = some (T, desc.length) ∧ T.maxBits = m ∧ SpecDecodes T t :=
+  spec_readTable_written c h tail
+
+/-- **FSE-compressed weights** (RFC 8878 §4.2.1.2: two interleaved states, the stream ends by exhaustion): for
+every weight vector with 4 … 257 entries `≤ 12`, whenever the production FSE coder needs fewer than 128 bytes,
+`Spec.Huffman.readWeights` on size byte + payload (+ anything) returns exactly the weights -/
+theorem fse_weights_spec (ws bytes : List Nat) (h4 : 4 ≤ ws.length) (h257 : ws.length ≤ 257)
+    (hle : ∀ w ∈ ws, w ≤ 12) (henc : Enc.fseWeights ws = .ok bytes) (hsmall : bytes.length < 128) (tail : List Nat) :
+    Spec.Huffman.readWeights (bytes.length :: (bytes ++ tail)) = some (ws, 1 + bytes.length) :=
+  spec_readWeights_fse ws bytes h4 h257 hle henc hsmall tail
+
+/-- non-vacuity of `SpecDecodes` / `huffman_description_spec`: the histogram table of `0,2,4,4,0,3,2,2,0,2` -/
+example : ∃ t desc T, Huf.buildFromData [0, 2, 4, 4, 0, 3, 2, 2, 0, 2] = .ok t ∧ Huf.writeTable Enc.fseWeights t = .ok desc ∧
+    Spec.Huffman.readTable (desc ++ [1, 2, 3]) = some (T, desc.length) ∧ SpecDecodes T t := by
+  have hsome : ((Huf.buildFromData [0, 2, 4, 4, 0, 3, 2, 2, 0, 2]).toOption.map (fun t => t.codes.length)) = some 5 := by
+    decide +kernel
+  cases ht : Huf.buildFromData [0, 2, 4, 4, 0, 3, 2, 2, 0, 2] with
+  | error f => rw [ht] at hsome; simp [Except.toOption] at hsome
+  | ok t =>
+    rw [ht] at hsome
+    have ht5 : t.codes.length = 5 := by simpa [Except.toOption] using hsome
+    obtain ⟨wd, m, c, _⟩ := buildFromData_canon (by decide) ht
+    rcases Zstd.Props.C13.fse_weights_lt_128_canon_partial c with ⟨desc, hdesc⟩ | ⟨bytes, hf, h128, hass⟩
+    · obtain ⟨T, hT, _, sd⟩ := spec_readTable_written c hdesc [1, 2, 3]
+      exact ⟨t, desc, T, rfl, hdesc, hT, sd⟩
+    · -- five weights: direct form, the FSE coder is not even called
+      exfalso
+      have h5 : wd.length = 5 := by have := c.codesOk.len; omega
+      obtain ⟨desc, hd, _⟩ := Zstd.Proofs.Huf.descReads_direct Enc.fseWeights c (by omega)
+      rw [hd] at hass
+      cases hass
+
+/-- the contract WITHOUT the length bound (the previous wording of `LitCoderCorrect`) -/
+def LitCoderCorrectUnbounded {H : Type} (R : H → Spec.Huffman.Table → Prop) (cd : Coders H) : Prop :=
+  ∀ (lits : List Byte) (prev : Option H) (bytes : List Byte) (t : Option H)
+    (dprev : Option Spec.Huffman.Table) (rest : List Byte),
+    (∀ h, prev = some h → ∃ d, dprev = some d ∧ R h d) →
+    cd.compressLiterals lits prev = .ok (bytes, t) →
+    ∃ d', Spec.decodeLiterals (bytes ++ rest) dprev = some (lits, bytes.length, d') ∧
+      (∀ h, (t <|> prev) = some h → ∃ d, d' = some d ∧ R h d)
+
+/-- … is false for the real coder, whatever the relation: `2^32 + 1` equal literals are written as an RLE
+section of ONE literal (`len as u32`).  (Not reachable: a block holds at most 128 Ki literals.) -/
+theorem lit_coder_contract_unbounded_false (R : Huf.EncTable → Spec.Huffman.Table → Prop) :
+    ¬ LitCoderCorrectUnbounded R realCoders := by
+  intro h
+  have hrle : rleLiterals 0 (2 ^ 32 + 1) = .ok [29, 0, 0, 0] := by decide
+  have hc : realCoders.compressLiterals (List.replicate (2 ^ 32 + 1) 0) none = .ok ([29, 0, 0, 0], none) := by
+    have hreal : realCoders.compressLiterals = compressLiteralsReal := rfl
+    rw [hreal, rle_branch 0 (2 ^ 32) none, hrle]
+  obtain ⟨d', hdec, _⟩ := h _ none _ none none [] (fun _ hh => by cases hh) hc
+  have hspec : Spec.decodeLiterals ([29, 0, 0, 0] ++ []) none = some ([0], 4, none) := by decide
+  rw [hspec] at hdec
+  simp only [Option.some.injEq, Prod.mk.injEq] at hdec
+  have := congrArg List.length hdec.1
+  rw [List.length_replicate] at this
+  simp at this
+
+/-- 1025 literals: one value that is not a byte, then zeros -/
+def nonByteLits : List Byte := 256 :: List.replicate 1024 0
+/-- 1026 byte literals with two values -/
+def twoValueLits : List Byte := (List.range 1026).map (· % 2)
+
+set_option maxRecDepth 100000 in
+/-- **the totality hypothesis `hlit` of `compress_with_matcher_correct_of_literal_coder` is unsatisfiable**
+(so that theorem, kept below for reference, is vacuous).  Witness 1: a literal `≥ 256` — only `0` occurs in
+the histogram `counts[..256]`, `distribute_weights(1)` fails its `assert!`. -/
+theorem lit_coder_total_unrestricted_false :
+    ¬ (∀ lits prev, 1024 < lits.length → lits.length ≤ 131072 → ∃ r, compressLiteralsReal lits prev = .ok r) := by
+  intro h
+  have hlen : nonByteLits.length = 1025 := by simp [nonByteLits]
+  obtain ⟨r, hr⟩ := h nonByteLits none (by omega) (by omega)
+  have : (compressLiteralsReal nonByteLits none).toOption.isSome = false := by decide +kernel
+  rw [hr] at this
+  cases this
+
+set_option maxRecDepth 100000 in
+/-- Witness 2, byte literals: a remembered "table" that is not a prefix code (code `2` in 1 bit).  `can_encode`
+accepts it, the Treeless path is taken, and the bit writer's `debug_assert!` fires.  (The real assert is
+weaker — `bits.ilog2() <= num_bits` — and would let this code through, writing garbage; no reachable
+state holds such a table: `compressLiterals_total`.) -/
+example : compressLiteralsReal twoValueLits (some ⟨[(2, 1), (3, 1)]⟩)
+    = .error (.assert "bit_writer.rs:write_bits_64:dirty-upper-bits") := by decide +kernel
+
+set_option maxRecDepth 100000 in
+/-- **`compress_with_matcher_correct_full` as worded is false**: its `data : List Byte` ranges over lists of
+`Nat`; for the well-behaved all-literals matcher and the 1025 "bytes" `256, 0, 0, …` compression panics. -/
+theorem compress_with_matcher_correct_full_false : ¬ compress_with_matcher_correct_full := by
+  intro h
+  have hm := valid_matcher_exists 4096 2048 (by decide) (by decide) (by decide) nonByteLits
+  obtain ⟨frame, c', hrun, _⟩ := h false (Compressor.fresh .fastest) rfl 4096 _ nonByteLits [] hm (Or.inl (by decide))
+  have : (compressFrame false compressBlockReal (Compressor.fresh .fastest) 4096
+      (fun i => ⟨2048, ⟨[], (nonByteLits.drop (i * 2048)).take 2048⟩⟩) nonByteLits []).toOption.isSome = false := by
+    decide +kernel
+  rw [hrun] at this
+  cases this
+
+/-- **C13 `fse_weights_lt_128`, for everything the compressor can build**: for every byte string, `write_table`
+(real FSE coder, production parameters) succeeds on the table `build_from_data` returns — the
+`assert!(encoded_len < 128)` cannot fire.  Instance of `C13.fse_weights_lt_128_full_holds`. -/
+theorem fse_weights_lt_128 : FseWeightsLt128 :=
+  fseWeightsLt128_of_full Zstd.Props.C13.fse_weights_lt_128_full_holds
+
+/-- in the words of the model: -/
+theorem fse_weights_lt_128_spelled (lits : List Nat) (t : Huf.EncTable) (hb : ∀ b ∈ lits, b < 256)
+    (h : Huf.buildFromData lits = .ok t) : ∃ desc, Huf.writeTable Enc.fseWeights t = .ok desc :=
+  fse_weights_lt_128 lits t hb h
+
+/-- **totality of the real literal coder on what `compress_block` hands it from a reachable state**: byte
+literals (1 … 128 Ki of them), remembered table canonical (`GoodTable`: it came out of `build_from_data`);
+the returned table is canonical again -/
+theorem lit_coder_total (lits : List Byte) (prev : Option Huf.EncTable)
+    (hb : ∀ b ∈ lits, b < 256) (h1 : 1 ≤ lits.length) (hmax : lits.length ≤ 131072)
+    (hprev : ∀ tp, prev = some tp → GoodTable tp) :
+    ∃ bytes t, compressLiteralsReal lits prev = .ok (bytes, t) ∧ (∀ h, t = some h → GoodTable h) :=
+  compressLiterals_total fse_weights_lt_128 lits prev hb h1 hmax hprev
+
+/-- … and without the finite evaluation behind `fse_weights_lt_128`: it returns, or panics at
+`assert!(encoded_len < 128)` of `write_table` -/
+theorem lit_coder_total_or_assert (lits : List Byte) (prev : Option Huf.EncTable)
+    (hb : ∀ b ∈ lits, b < 256) (h1 : 1 ≤ lits.length) (hmax : lits.length ≤ 131072)
+    (hprev : ∀ tp, prev = some tp → GoodTable tp) :
+    (∃ bytes t, compressLiteralsReal lits prev = .ok (bytes, t) ∧ (∀ h, t = some h → GoodTable h)) ∨
+      (∃ f, compressLiteralsReal lits prev = .error f ∧ WriteTableAssert f) :=
+  compressLiterals_total_or_assert lits prev hb h1 hmax hprev
+
+/-- **C16, partial correctness, no hypothesis on the coders and none on the bytes**: for every well-behaved
+matcher with `window_size() + 3 < 2^32`, every prior state of the compressor, every fragmentation:
+WHENEVER `compress` at `Fastest` (real block encoder) returns, the strict Spec decodes the frame to
+exactly the input (whole frame consumed, checksum verified). -/
+theorem compress_with_matcher_decodes (hash : Bool) (c : Compressor Huf.EncTable) (hc : c.level = .fastest)
+    (w : Nat) (script : Nat → MBlock) (data : List Byte) (frags : List Nat) (hm : ValidMatcher w script data)
+    (hw32 : w + 3 < 2 ^ 32) (frame : List Byte) (c' : Compressor Huf.EncTable)
+    (hrun : compressFrame hash compressBlockReal c w script data frags = .ok (frame, c')) :
+    Spec.decodeFrame frame = some (specResult hash w data frame) :=
+  compress_real_decodes hash c hc w script data frags hm hw32 frame c' hrun
+
+/-- **C16 without the finite evaluation behind `fse_weights_lt_128`**: for every well-behaved matcher with
+`window_size() + 3 < 2^32` and every byte string, `compress` at `Fastest` either completes with a frame the
+strict Spec decodes to exactly the input, or panics at `assert!(encoded_len < 128)` in
+`HuffmanEncoder::write_table` (with a witness: a byte string whose `build_from_data` table has an
+FSE-compressed weight description of 128 bytes or more).  No other panic site of the compressor is reachable. -/
+theorem compress_with_matcher_correct_or_assert (hash : Bool) (c : Compressor Huf.EncTable) (hc : c.level = .fastest)
+    (w : Nat) (script : Nat → MBlock) (data : List Byte) (frags : List Nat) (hm : ValidMatcher w script data)
+    (hw32 : w + 3 < 2 ^ 32) (hbytes : ∀ b ∈ data, b < 256) :
+    (∃ frame c', compressFrame hash compressBlockReal c w script data frags = .ok (frame, c') ∧
+        Spec.decodeFrame frame = some (specResult hash w data frame)) ∨
+      (∃ f, compressFrame hash compressBlockReal c w script data frags = .error f ∧ WriteTableAssert f) :=
+  compress_real_correct_or_assert hash c hc w script data frags hm hw32 hbytes
+
+/-- **C16 at full strength, no hypothesis on the coders left** (corrected wording: the input consists of bytes;
+offsets fit `u32` through the window): for every well-behaved user-supplied matcher, every byte string, every
+read fragmentation, every prior state of the compressor object and both settings of `hash`, compression at
+`Fastest` with the real block encoder (real Huffman and FSE coders) completes — no panic — and the strict
+Spec decodes the frame to exactly the input, consuming all of it and verifying the checksum. -/
+theorem compress_with_matcher_correct (hash : Bool) (c : Compressor Huf.EncTable)
+    (hc : c.level = .fastest) (w : Nat) (script : Nat → MBlock) (data : List Byte) (frags : List Nat)
+    (hm : ValidMatcher w script data) (hw32 : w + 3 < 2 ^ 32) (hbytes : ∀ b ∈ data, b < 256) :
+    ∃ frame c', compressFrame hash compressBlockReal c w script data frags = .ok (frame, c') ∧
+      Spec.decodeFrame frame = some (specResult hash w data frame) :=
+  compress_real_correct fse_weights_lt_128 hash c hc w script data frags hm hw32 hbytes
+
+/-- non-vacuity of `compress_with_matcher_correct`: the all-literals matcher is well-behaved for every data -/
+example (data : List Byte) (hbytes : ∀ b ∈ data, b < 256) :
+    ∃ frame c', compressFrame true compressBlockReal (Compressor.fresh .fastest) 4096
+        (fun i => ⟨2048, ⟨[], (data.drop (i * 2048)).take 2048⟩⟩) data [] = .ok (frame, c') ∧
+      Spec.decodeFrame frame = some (specResult true 4096 data frame) :=
+  compress_with_matcher_correct true _ rfl 4096 _ data []
+    (valid_matcher_exists 4096 2048 (by decide) (by decide) (by decide) data) (by decide) hbytes
+
+/-! ### non-vacuity of the literal-coder theorems, by kernel evaluation -/
+
+/-- skewed byte literals: the "ruler" sequence (trailing zeros of `i + 1`, capped at 4) -/
+def ruler (n : Nat) : List Byte := (List.range n).map fun i =>
+  let k := i + 1
+  if k % 2 = 1 then 0 else if k % 4 = 2 then 1 else if k % 8 = 4 then 2 else if k % 16 = 8 then 3 else 4
+
+def blkA : List Byte := ruler 1100
+def blkB : List Byte := (ruler 1101).drop 1
+
+/-- `compress_block` on the parse `p` from state `st`, then the strict Spec on the literals section of the
+block under the table `h`: (block length, literals type, bytes the Spec consumed, encoder remembers a
+table?, literals regenerated?, encoder state after, Spec table after) -/
+def litRound (p : Parse) (st : EncState Huf.EncTable) (h : Option Spec.Huffman.Table) :
+    Option (Nat × Nat × Nat × Bool × Bool × EncState Huf.EncTable × Option Spec.Huffman.Table) :=
+  match compressBlockReal p st with
+  | .error _ => none
+  | .ok (bytes, st') =>
+    match Spec.decodeLiterals bytes h with
+    | none => none
+    | some (l, used, h') =>
+      some (bytes.length, bytes.headD 0 % 4, used, st'.lastHuff.isSome, l == parseLiterals p, st', h')
+
+set_option maxRecDepth 100000 in
+/-- a block with Huffman literals: 1100 literals, NEW table (type 2), four streams (size format 2), 290 bytes;
+the strict Spec reads the 289-byte literals section back to the literals; the encoder remembers the table -/
+example : (litRound ⟨[], blkA⟩ {} none).map (fun r => (r.1, r.2.1, r.2.2.1, r.2.2.2.1, r.2.2.2.2.1))
+    = some (290, 2, 289, true, true) := by
+  decide +kernel
+
+set_option maxRecDepth 100000 in
+/-- … and the block after it: TREELESS (type 3, no description: 287 bytes), decoded by the Spec with the table
+of the first block, which stays in force (`Tracks` over two blocks) -/
+example : ((litRound ⟨[], blkA⟩ {} none).bind (fun r1 => (litRound ⟨[], blkB⟩ r1.2.2.2.2.2.1 r1.2.2.2.2.2.2).map
+    (fun r => (r.1, r.2.1, r.2.2.1, r.2.2.2.1, r.2.2.2.2.1, r.2.2.2.2.2.2 == r1.2.2.2.2.2.2))))
+    = some (287, 3, 286, true, true, true) := by
+  decide +kernel
+
+set_option maxRecDepth 100000 in
+/-- an RLE-literals block (the F10 situation: 1100 literals of one value followed by a match, block not
+constant): type 1, 4-byte literals section, no table remembered -/
+example : (litRound ⟨[⟨List.replicate 1100 7, 3300, 8⟩], []⟩ {} none).map
+    (fun r => (r.1, r.2.1, r.2.2.1, r.2.2.2.1, r.2.2.2.2.1)) = some (23, 1, 4, false, true) := by
+  decide +kernel
+
+/-- 40 distinct byte values (more than 16 transmitted weights → FSE-compressed description), 330 literals -/
+def manyValueLits : List Byte := (List.range 330).map fun i => if i % 3 = 0 then i / 3 % 40 else 0
+
+/-- the literal coder on `lits` from the remembered table `prev`, then the strict Spec (table `d`) on the
+section followed by one more byte: (section length, literals type, fourth byte, literals regenerated and
+section exactly consumed?, Spec table afterwards) -/
+def litCheck (lits : List Byte) (prev : Option Huf.EncTable) (d : Option Spec.Huffman.Table) :
+    Option (Nat × Nat × Nat × Bool × Option Spec.Huffman.Table) :=
+  match compressLiteralsReal lits prev with
+  | .error _ => none
+  | .ok (bytes, _) =>
+    match Spec.decodeLiterals (bytes ++ [0xAA]) d with
+    | none => none
+    | some (l, used, d') => some (bytes.length, bytes.headD 0 % 4, bytes.getD 3 0, l == lits && used == bytes.length, d')
+
+set_option maxRecDepth 100000 in
+/-- the literal coder alone on small inputs (it does not look at the 1024 threshold), each decoded by the
+strict Spec: FSE-compressed weights (description header byte `10 < 128`) with four streams, 209 bytes for
+330 literals; direct weights (header byte `129`) with four streams; raw fallback (5 literals: nothing saved) -/
+example :
+    (litCheck manyValueLits none none).map (fun r => (r.1, r.2.1, r.2.2.1, r.2.2.2.1)) = some (209, 2, 10, true) ∧
+    (litCheck [1, 2, 1, 2, 1, 1, 1, 1, 1, 1, 1, 1, 1, 1, 1, 1, 1, 2, 2, 1, 1] none none).map
+      (fun r => (r.1, r.2.1, r.2.2.1, r.2.2.2.1)) = some (15, 2, 129, true) ∧
+    (litCheck [1, 2, 1, 2, 1] none none).map (fun r => (r.1, r.2.1, r.2.2.2.1)) = some (8, 0, true) := by
+  decide +kernel
+
+/-- ONE stream, Treeless (5 literals in 4 bytes), against the Spec table of the weights `0, 1 (, 1)`, which the
+encoder's remembered table `sym 1 ↦ 0/1 bit, sym 2 ↦ 1/1 bit` is the code of; the table stays in force -/
+example :
+    (litCheck [1, 2, 1, 1, 1] (some ⟨[(0, 0), (0, 1), (1, 1)]⟩) (Spec.Huffman.tableOfWeights [0, 1])).map
+      (fun r => (r.1, r.2.1, r.2.2.2.1, r.2.2.2.2 == Spec.Huffman.tableOfWeights [0, 1])) = some (4, 3, true, true) := by
+  decide +kernel
 
 /-- non-vacuity, end to end, by kernel evaluation: a 47-byte input, a scripted matcher with window
 1024 that reports two matches (offsets 12 and 39), read in fragments of 3 and 1 bytes: the script is a
